@@ -1,6 +1,6 @@
 (* Pinned statements of C11 (generated once by tools/mkpins.py from coq/props/C11.v, then committed). *)
 From DV Require Import Model.Base Model.Parser Model.Header Model.Readers Model.Mutate Spec.NameSpec Spec.PacketSpec Spec.RecordSpec Spec.PlainSpec
-  Proofs.Hoare Proofs.WalkSkip Proofs.PlainWf Proofs.InsertSpec Proofs.DeleteInv Proofs.Totality Proofs.WalkInv Proofs.DeleteWalk props.C11.
+  Proofs.Hoare Proofs.WalkSkip Proofs.PlainWf Proofs.InsertSpec Proofs.DeleteInv Proofs.Totality Proofs.WalkInv Proofs.DecompressFirst Proofs.WalkFresh Proofs.DeleteWalk props.C11.
 Check (C11_walk_terminates : forall (A : Type) (D : A -> bool) (l : list A),
   exists r, awalk D ((ndel D l + 1) * (length l + 1)) l 0 [] = Some r).
 Print Assumptions C11_walk_terminates.
@@ -82,3 +82,26 @@ Check (C11_delete_everything_but_opt : forall sec v it qls qt lA lN lR,
     reading (pp_packet v') qls qt lA' lN' lR' /\
     map unpl (sec_list sec lA' lN' lR') = filter (fun y => is_opt (fst y)) l /\ other_sections_kept sec lA lN lR lA' lN' lR').
 Print Assumptions C11_delete_everything_but_opt.
+Check (C11_delete_on_any_object : forall sec v qls qt lA lN lR l1 r x l2 n,
+  objst v -> reading (pp_packet v) qls qt lA lN lR -> sec = SAnswer \/ sec = SNameServers \/ sec = SAdditional ->
+  sec_list sec lA lN lR = l1 ++ (r, x) :: l2 -> is_opt r = false ->
+  exists s', m_delete (v, cur_on sec r n) = (s', Ok tt) /\
+  dinv (fst s') /\ it_offset (snd s') = None /\ it_section (snd s') = sec /\
+  exists lA' lN' lR', reading (pp_packet (fst s')) qls qt lA' lN' lR' /\
+    map unpl (sec_list sec lA' lN' lR') = map unpl l1 ++ map unpl l2 /\ other_sections_kept sec lA lN lR lA' lN' lR').
+Print Assumptions C11_delete_on_any_object.
+Check (C11_walk_on_any_object : forall sec, sec = SAnswer \/ sec = SNameServers \/ sec = SAdditional ->
+  forall (D : rec_view * rd_view -> bool) (dec : ppacket -> rrit -> bool),
+  (forall y, D y = true -> is_opt (fst y) = false) ->
+  (forall v qls qt lA lN lR rxp n, reading (pp_packet v) qls qt lA lN lR -> In rxp (sec_list sec lA lN lR) ->
+     dec v (cur_on sec (fst rxp) n) = D (unpl rxp)) ->
+  forall v it qls qt lA lN lR,
+    objst v -> reading (pp_packet v) qls qt lA lN lR -> it_offset it = None -> it_section it = sec ->
+    let l := map unpl (sec_list sec lA lN lR) in
+    exists v' cs lA' lN' lR' ys,
+      cwalk dec ((ndel D l + 1) * (length l + 1)) v it [] = Some (v', cs) /\ objst v' /\ reading (pp_packet v') qls qt lA' lN' lR' /\
+      map unpl (sec_list sec lA' lN' lR') = filter (keep D) l /\ other_sections_kept sec lA lN lR lA' lN' lR' /\
+      Forall2 (yielded sec) cs ys /\ (forall y, In y (filter (keep D) l) -> In y ys) /\ (forall y, In y ys -> In y l)).
+Print Assumptions C11_walk_on_any_object.
+Check (C11_parsed_packets_are_such_objects : forall p v, bytes_ok p -> parse p = Ok v -> objst v).
+Print Assumptions C11_parsed_packets_are_such_objects.
